@@ -92,7 +92,7 @@ def miri(prop, tier, seed, ctx, log):
     unsupported = []
     for i, p in procs:
         try:
-            so, se = p.communicate(timeout=ctx.get("miri_timeout", 900))
+            so, se = p.communicate(timeout=ctx.get("miri_timeout", 2400))
         except subprocess.TimeoutExpired:
             p.kill()
             out["inconclusive"].append("miri shard %d: wall-clock watchdog" % i)
